@@ -555,3 +555,21 @@ Proof. intros Hw. cbn [rstep]. unfold stop_waiting. destruct s. cbn in *. subst.
 
 Lemma drained_init m second idc : drained (rinit m second idc).
 Proof. unfold drained, rinit. cbn. discriminate. Qed.
+
+(** a recv() dropped at ANY point of ANY history, and re-issued, leaves the rest of the history unchanged:
+    same final state, same observations (the two extra steps observe nothing) *)
+Lemma cancel_anywhere m second idc es1 es2 :
+  let s0 := rinit m second idc in
+  r_waiting (fst (rrun s0 es1)) = true ->
+  fst (rrun s0 (es1 ++ ECancelRecv :: ERecv :: es2)) = fst (rrun s0 (es1 ++ es2)) /\
+  concat (snd (rrun s0 (es1 ++ ECancelRecv :: ERecv :: es2))) = concat (snd (rrun s0 (es1 ++ es2))).
+Proof.
+  intros s0 Hw.
+  pose proof (rrun_drained es1 s0 (drained_init m second idc)) as D.
+  rewrite (rrun_app es1 s0 (ECancelRecv :: ERecv :: es2)), (rrun_app es1 s0 es2).
+  destruct (rrun s0 es1) as [s1 o1]. cbn [fst] in Hw, D.
+  change (ECancelRecv :: ERecv :: es2) with ([ECancelRecv; ERecv] ++ es2).
+  rewrite (rrun_app [ECancelRecv; ERecv] s1 es2), (cancel_then_recv_is_identity s1 D Hw).
+  destruct (rrun s1 es2) as [s2 o2]. cbn [fst snd]. split; [reflexivity|].
+  rewrite !concat_app. reflexivity.
+Qed.
